@@ -1,4 +1,5 @@
 """C14 — chunk exports parse back to the same chunks (Export.tla, Csv.tla)."""
+from concurrent.futures import ThreadPoolExecutor
 from lib import vlib
 from checks.common import absorb, replay_generic
 
@@ -32,8 +33,19 @@ Interpretation choices (soundness first):
   StreamExporter with its running index, the vector-DB records).  Export.tla states this as the invariants
   PositionIndependent / OwnIndex / OrderEquivariant; the variant IndexFrom = "position" is refuted by TLC.
 * Batch size <= 0 (no progress) belongs to C02, not here.  Invalid UTF-8 is not generated (JSON cannot carry it).
-* Search(keyword) / FilterByElementType are the documented case-insensitive predicates; search texts are
-  built from words that do not overlap, so substring search equals containment of token sequences.
+* Every ChunkCollection filter is asserted by its documented meaning (listed in Export.tla above Sat).
+  Search(k) "containing a keyword (case-insensitive)" is read as: the lower-cased text contains the lower-cased
+  keyword as a contiguous run of characters (the empty keyword matches everything).  "Lower-cased" is the Unicode
+  simple lower-case mapping, given to the spec as an explicit finite table (LowerPairs) over a case alphabet with
+  pairs of different kinds: same length (A/a, U+00C9/U+00E9, U+03A3/U+03C3), length-changing (U+0130 -> i,
+  KELVIN SIGN -> k, U+023A -> U+2C65, U+1E9E -> U+00DF), and letters that case folding but not lower-casing
+  identifies (final sigma, long s), plus digit, emoji, NUL.  The expectation comes from that table; the harness
+  only cross-checks the table against unicode.ToLower of the characters it renders (a disagreement is a
+  machinery error).  An implementation that used full case folding (sigma = final sigma) would differ from
+  this reading - it is the reading the task fixed.  FilterBySection is exact (no case mapping);
+  FilterByElementType compares ASCII identifiers without case.  In search cases a text is either made of
+  one-character tokens or of non-overlapping words, with keywords of the same sort, so substring search on the
+  rendered text equals containment of token sequences.
 """
 
 EVIDENCE = dict(
@@ -42,7 +54,9 @@ EVIDENCE = dict(
          "formats, (B) collections of <= MaxN chunk archetypes x every export configuration (text/metadata on-off, "
          "field lists, flatten, header, pretty, id column) x JSON/JSONL/CSV/TSV + 4 vector-DB record formats, "
          "(C) batch sizes 1..n+1 and the stream exporter, (D) filter chains of <= 2 of 21 predicates, (E) filtered "
-         "collections exported - all enumerated; chunk metadata (index, total, title) belongs to the chunk "
+         "collections exported, (Q) per group of case-related characters a collection with a chunk for every text of <= 3 "
+         "characters x every keyword of <= 2 characters in either case x chains (Search, Search+MaxTokens, Lists+Search, "
+         "FilterBySection, Search+Search) - all enumerated; chunk metadata (index, total, title) belongs to the chunk "
          "archetype, not to its position, so collections with the index-0 chunk anywhere / repeated occur in B, C, E - "
          "by TLC from ExportMC with the expected records computed by Export.tla; each case is run on the real "
          "exporters and parsed back with encoding/json / the validated RFC 4180 reader.  Non-trivial = a collection "
@@ -69,8 +83,15 @@ def run(ctx):
     q = ctx.tier == "quick"
     # R1: the RFC 4180 lemma Read(Write(rows)) = rows, negative control: a writer that
     # does not double embedded quotes must be refuted
-    ctx.tlc("CsvMC", "Csv_mc_lemma_quick.cfg" if q else "Csv_mc_lemma.cfg", timeout=1800)
-    ctx.tlc("CsvMC", "Csv_mc_bad.cfg", expect_violation=True)
+    # the small independent TLC runs go side by side with the large one (quick tier: wall time is JVM starts)
+    pool = ThreadPoolExecutor(max_workers=5)
+    side = [pool.submit(ctx.tlc, "CsvMC", "Csv_mc_lemma_quick.cfg" if q else "Csv_mc_lemma.cfg", workers=4, timeout=1800, count=False),
+            pool.submit(ctx.tlc, "CsvMC", "Csv_mc_bad.cfg", workers=2, expect_violation=True, extra=["-noGenerateSpecTE"]),
+            pool.submit(ctx.tlc, "ExportMC", "Export_mc_impl.cfg", workers=2, expect_violation=True, extra=["-noGenerateSpecTE"]),
+            # ... and so must the variant that writes a chunk's position in the exported slice for an index of 0
+            pool.submit(ctx.tlc, "ExportMC", "Export_mc_impl_index.cfg", workers=2, expect_violation=True, extra=["-noGenerateSpecTE"])]
+    big = pool.submit(ctx.tlc, "ExportMC", "Export_mc_quick.cfg" if q else "Export_mc_thorough.cfg", workers=8,
+                      collect=True, timeout=3000, jvm="-Xmx12g" if not q else None, count=False)
     # the harness's CSV reader must agree with the automaton on every enumerated input
     gen = ctx.tlc("CsvMC", "Csv_gen_quick.cfg" if q else "Csv_gen_thorough.cfg", workers=1 if q else 4,
                   collect=True, timeout=1800)
@@ -85,11 +106,12 @@ def run(ctx):
     ctx.extra["csv_reader_cases"] = len(csvcases)
 
     # R1 + R2: the export machine: invariants checked and cases emitted by the same exhaustive run
-    exp = ctx.tlc("ExportMC", "Export_mc_quick.cfg" if q else "Export_mc_thorough.cfg", workers=8,
-                  collect=True, timeout=3000, jvm="-Xmx12g" if not q else None)
-    ctx.tlc("ExportMC", "Export_mc_impl.cfg", expect_violation=True)
-    # ... and so must the variant that writes a chunk's position in the exported slice for an index of 0
-    ctx.tlc("ExportMC", "Export_mc_impl_index.cfg", expect_violation=True, workers=4)
+    exp = big.result()
+    done = [f.result() for f in side]          # re-raises a MachineryError of a side run
+    pool.shutdown()
+    for r in (exp, done[0]):                   # counted here, in one thread (the controls are not counted)
+        ctx.states += r["distinct"]
+        ctx.transitions += r["generated"]
     cases = dedupe(exp["cases"])
     if not cases:
         raise vlib.MachineryError("ExportMC emitted no cases")
@@ -114,24 +136,31 @@ def run(ctx):
         if c["mode"] == "filter" and len(c["preds"]) == 2 and c["sel"]:
             ctx.sample({"mode": "filter", "preds": c["preds"], "expected_ids": c["sel"]})
             break
-    absorb(ctx, ctx.run_driver(["c14", "replay"], cases))
+    res = ctx.run_driver(["c14", "replay"], cases)
+    tab = [r for r in res if r.get("clause") == "table"]
+    if tab:
+        raise vlib.MachineryError("the case table of Export.tla disagrees with the Unicode data of the harness: %s" % tab[0].get("what"))
+    absorb(ctx, res)
 
     # R3: random larger collections, every operation validated by ExportTrace.tla
     nreq, nseg, mx = (8, 40, 10) if q else (32, 120, 12)
     rec = ctx.run_driver(["c14", "record"], [{"n": nseg, "max": mx} for _ in range(nreq)])
-    for r in rec:
-        ev = r.get("events", [])
-        if not ev:
-            raise vlib.MachineryError("record driver logged no events")
-        segs = sum(1 for e in ev if e["event"] == "Begin")
-        ctx.evaluations += segs
+    ev = [e for r in rec for e in r.get("events", [])]
+    if not ev:
+        raise vlib.MachineryError("record driver logged no events")
+    ctx.evaluations += sum(1 for e in ev if e["event"] == "Begin")
+    runs = 0
+    while ev and runs < (6 if q else 20):
+        runs += 1
         tv = ctx.validate_trace("ExportTrace", "ExportTrace.cfg", ev)
         if tv["accepted"]:
-            ctx.traces_validated += segs
-            continue
+            ctx.traces_validated += sum(1 for e in ev if e["event"] == "Begin")
+            break
         line = tv["depth"]
-        e = ev[line - 1] if 0 < line <= len(ev) else {}
-        start = max(i for i in range(line) if ev[i]["event"] == "Begin") if line > 0 else 0
+        if line < 1 or line > len(ev):
+            raise vlib.MachineryError("trace validation stopped at an impossible depth %d" % line)
+        e = ev[line - 1]
+        start = max(i for i in range(line) if ev[i]["event"] == "Begin")
         beg = ev[start]
         ctx.traces_validated += sum(1 for x in ev[:start] if x["event"] == "Begin")
         what = ("ExportTrace rejects the recorded %s/%s operation at event %d (%s): the records parsed back from the "
@@ -139,6 +168,8 @@ def run(ctx):
                 % (beg.get("mode"), beg.get("fmt"), line, e.get("event"), (": " + e["err"]) if "err" in e else ""))
         ctx.violation("C14:trace:%s:%s" % (beg.get("mode"), beg.get("fmt")), what,
                       {"trace_segment": ev[start:line], "rejected_line": line})
+        nxt = [i for i in range(line, len(ev)) if ev[i]["event"] == "Begin"]
+        ev = ev[nxt[0]:] if nxt else []
     ctx.sample({"trace_events": sum(len(r.get("events", [])) for r in rec)})
     ctx.notes.append(NOTES)
 
